@@ -27,6 +27,24 @@ CHECKS = {
         note='NOT decided: the set of crash states LMDB can expose.'),
 }
 
+CHECKS.update({
+    'C07': dict(
+        technique='index-provenance dataflow over MIR origin terms + whole-database effect table',
+        text='Every Key/Prefix constructor call in the library takes the function\'s own index (self.index, a u16 parameter fed by induction over the call graph, or the per-index upgrade loop variable); every heed operation\'s key/prefix/range is built by such a constructor; ranges are the inclusive full id range of one kind of one index; cursor writes use the yielded key; whole-database operations only in upgrade/n_nodes. Holds for every pair of index numbers and ids at once because it is a fact about the code, not about sampled indexes.',
+        design='DESIGN.md §4 C07',
+        note='NOT decided: heed\'s prefix iteration itself; byte-for-byte equality is implied by, not checked beyond, key provenance.'),
+    'C10': dict(
+        technique='error-discipline (Result consumption) dataflow over MIR locals + effect tables + finite-domain evaluation of the cancel poll',
+        text='Every Result carrying heed::Error/io::Error/arroy::Error anywhere in the library (incl. every cancellation poll and iterator item) is propagated by an accepted idiom; swallowing consumers, Err arms reaching success, rewrapped cancellation errors, leak primitives, internal commits and non-owning temp-file handles are violations naming the site. Covers every fault position at once, which fault-injection tests can only sample.',
+        design='DESIGN.md §4 C10',
+        note='NOT decided: Option unwraps guarded by structural invariants; LMDB abort semantics; non-monotone callbacks.'),
+    'C19': dict(
+        technique='CFG dominance of the length gate over all effects and success returns + match-arm analysis of the append mapping + sibling agreement',
+        text='The exact length comparison dominates every database effect and every success return in add_item/append_item/by_vector and its failing edge returns InvalidVecDimension{expected, received}; append maps exactly Mdb(KeyExist) to InvalidItemAppend, propagates other errors and marks only on Ok; add/append write identical keys and leaf; del_item writes nothing and returns false on absence.',
+        design='DESIGN.md §4 C19',
+        note='NOT decided: LMDB\'s own MDB_APPEND ordering check.'),
+})
+
 NOT_YET = {}
 
 
